@@ -41,6 +41,8 @@ HARNESSES = [
 ) + chunked("c20_from_days_contract", functions=["time::Date::from_days"], kind="proof_for_contract",
       clauses=["requires 719163 <= days <= 719163+2932896", "ensures 1970<=year<=9999, 1<=ordinal<=365+leap, flag==from_year(year), 365(y-1)+(y-1)/4-(y-1)/100+(y-1)/400+ordinal == days",
                "every get_unchecked index in range (CBMC pointer checks)"], timeout=600,
+) + chunked("c20_from_days_replayable", functions=["time::Date::from_days"], kind="plain twin of the contract harness (natively replayable)",
+      clauses=["same postcondition as the attribute contract of from_days, asserted in a plain harness"], timeout=600,
 ) + chunked("c20_from_unix_timestamp_contract", functions=["time::UTCDateTime::from_unix_timestamp"], kind="proof_for_contract + stub_verified(Date::from_days)",
       clauses=["requires t <= 253402300799", "ensures date valid, secs < 86400, (ce_day(year, ordinal) - 719163)*86400 + secs == t (relational)"], timeout=600,
 ) + chunked("c20_into_imf_fixdate_contract", functions=["time::UTCDateTime::into_imf_fixdate"],
